@@ -673,7 +673,8 @@ func (c *MConnection) stopPongTimer() {
 // maxPacketMsgSize returns a maximum size of PacketMsg
 func (c *MConnection) maxPacketMsgSize() int {
 	bz, err := proto.Marshal(mustWrapPacket(&tmp2p.PacketMsg{
-		ChannelID: 0x01,
+		// the largest channel id: ids of 0x80 and above take two bytes on the wire
+		ChannelID: 0xff,
 		EOF:       true,
 		Data:      make([]byte, c.config.MaxPacketMsgPayloadSize),
 	}))
